@@ -237,7 +237,7 @@ def run(ctx, pid):
             return recipe.tlc_only(label, 'Pool', emit=True, timeout=3000 if thorough else 600,
                                    heap='3g', **k)
         return recipe.tlc_only(label, 'Pool', emit=True, simulate=nwalks, depth=depth,
-                               seed=ctx.seed, timeout=1200, heap='2g', **k)
+                               seed=ctx.seed, timeout=1200, heap='2g', budget_ok=True, **k)
 
     with ThreadPoolExecutor(max_workers=3 if thorough else 6) as ex:
         futs = [ex.submit(launch, u) for u in units]
